@@ -1,7 +1,8 @@
 (* C18 proofs, part 2: (D) the sharp range of the round trip -- when the exact product is an integer
    (formatter output parsed back, token -> ledger re-scaling) the two away-from-zero roundings are
    harmless up to |n| < 2^510, and the round trip really fails at 2^511 - 1; (E) compositions of the two
-   re-scaling directions as the account database uses them; (F) injectivity of the formatter. *)
+   re-scaling directions as the account database uses them; (F) injectivity of the formatter and corollaries
+   over EVM words; (G) the float precision as a parameter: 258 bits are necessary and sufficient. *)
 From Coq Require Import List NArith ZArith Lia Bool.
 From V.Base Require Import Hex.
 From V.C18 Require Import Model Proofs.
@@ -197,4 +198,128 @@ Lemma format_injective n m : Z.abs n < bound510 -> Z.abs m < bound510 ->
 Proof.
   intros Hn Hm E. pose proof (roundtrip_sharp n Hn) as R1. pose proof (roundtrip_sharp m Hm) as R2.
   rewrite E, R2 in R1. injection R1. auto.
+Qed.
+
+(* ====================== F2. corollaries in the property's own terms ====================== *)
+(* the property's quantifier, literally: EVM words and every token decimal count 0..18 *)
+Lemma rescale_evm_word n d : 0 <= n < 2 ^ 256 -> 0 <= d <= 18 ->
+  format_erc20 n d = Ok (n / 10 ^ (18 - d)) /\ format_rocket n d = Ok (n * 10 ^ (18 - d)).
+Proof.
+  intros Hn Hd.
+  assert (H1 : 2 ^ 256 < bound450) by (vm_compute; reflexivity).
+  assert (Hs : 0 < 10 ^ (18 - d)) by (apply Z.pow_pos_nonneg; lia).
+  assert (Hs' : 10 ^ (18 - d) <= 10 ^ 18) by (apply Z.pow_le_mono_r; lia).
+  assert (H2 : 2 ^ 256 * 10 ^ 18 < bound510) by (vm_compute; reflexivity).
+  split.
+  - rewrite rescale_erc20 by lia. rewrite Z.quot_div_nonneg by lia. reflexivity.
+  - apply rescale_rocket_sharp; [lia|]. rewrite Z.abs_eq by lia. nia.
+Qed.
+
+(* a plain unsigned integer string (the STAKE opcode's strconv.FormatUint path): value * 10^18 *)
+Lemma parse_uint_string ip : Forall digit ip -> ip <> [] -> (length ip <= 78)%nat ->
+  str_to_bigint ip = Ok (horner ip * 10 ^ 18).
+Proof.
+  intros Fi Hne Hl.
+  pose proof (parse_exact None ip [] false Fi (Forall_nil _)) as H.
+  unfold dec_string in H. cbn [sign_bytes app sign_neg length] in H. rewrite !app_nil_r in H.
+  rewrite H; auto; try lia.
+  cbn zeta. f_equal. unfold horner at 2. cbn [fold_left]. lia.
+Qed.
+
+(* ====================== G. the precision as a parameter ====================== *)
+Lemma dec_string_nonempty sg ip fp dot : ip ++ fp <> [] -> (dot = false -> fp = []) -> dec_string sg ip fp dot <> [].
+Proof.
+  intros Hne Hdot Es. unfold dec_string in Es. destruct sg as [[|]|]; cbn in Es; try discriminate.
+  destruct ip; [|discriminate]. destruct dot; [discriminate|]. rewrite (Hdot eq_refl) in Hne. auto.
+Qed.
+
+Lemma str_zero_gen md prec sg ip fp dot dd :
+  Forall digit ip -> Forall digit fp -> ip ++ fp <> [] -> (dot = false -> fp = []) ->
+  horner (ip ++ fp) = 0 ->
+  str_to_bigint_gen md prec (dec_string sg ip fp dot) dd = Ok 0.
+Proof.
+  intros Fi Ff Hne Hdot HM. unfold str_to_bigint_gen.
+  destruct (dec_string sg ip fp dot) as [|c0 s0] eqn:Es.
+  { exfalso. eapply dec_string_nonempty; eauto. }
+  rewrite <- Es. rewrite (parse_decimal sg ip fp dot Fi Ff Hne Hdot).
+  unfold float_of_number. rewrite HM. reflexivity.
+Qed.
+
+Lemma str_pipeline_gen prec sg ip fp dot dd :
+  Forall digit ip -> Forall digit fp -> ip ++ fp <> [] -> (dot = false -> fp = []) ->
+  0 <= dd -> (length fp <= 27)%nat -> 0 < horner (ip ++ fp) ->
+  str_to_bigint_gen AwayFromZero prec (dec_string sg ip fp dot) dd =
+  Ok (let t := bf_trunc (bf_mul AwayFromZero prec (sign_neg sg)
+                           (round_q AwayFromZero prec (sign_neg sg) (horner (ip ++ fp)) (10 ^ Z.of_nat (length fp)))
+                           (BF (10 ^ dd) 0)) in
+      if sign_neg sg then - t else t).
+Proof.
+  intros Fi Ff Hne Hdot Hdd Hk HMp.
+  unfold str_to_bigint_gen.
+  destruct (dec_string sg ip fp dot) as [|c0 s0] eqn:Es.
+  { exfalso. eapply dec_string_nonempty; eauto. }
+  rewrite <- Es. rewrite (parse_decimal sg ip fp dot Fi Ff Hne Hdot).
+  set (M := horner (ip ++ fp)) in *. set (k := Z.of_nat (length fp)).
+  assert (Hk' : 0 <= k <= 27) by (unfold k; lia).
+  unfold float_of_number.
+  destruct (Z.eqb_spec M 0) as [HM0 | HM0]; [lia|].
+  change (10 =? 10) with true. cbn iota.
+  unfold pow10. destruct (Z.ltb_spec dd 0); [lia|].
+  destruct (Z.eqb_spec (0 - k) 0) as [Hk0 | Hk0].
+  - assert (E : k = 0) by lia. rewrite E. change (0 - 0) with 0.
+    unfold frac_of at 1. cbn [be bm]. change (0 <=? 0) with true. cbn iota.
+    change (2 ^ 0) with 1. change (10 ^ 0) with 1. rewrite Z.mul_1_r. reflexivity.
+  - destruct (Z.ltb_spec (0 - k) 0) as [Hneg | Hpos]; [|lia].
+    replace (- (0 - k)) with k by lia. rewrite (pow5_small _ k Hk'). cbn [be bm].
+    unfold frac_of at 1. cbn [be bm]. replace (0 - k - 0) with (- k) by lia.
+    destruct (Z.leb_spec 0 (- k)); [lia|]. rewrite Z.opp_involutive.
+    assert (E10 : 2 ^ k * 5 ^ k = 10 ^ k) by (rewrite <- Z.pow_mul_l; reflexivity).
+    rewrite E10. reflexivity.
+Qed.
+
+Lemma format_parse_exact_gen prec n p dd : 1 <= prec -> 0 <= p <= 27 -> p <= dd ->
+  Z.abs n * 10 ^ (dd - p) * (2 * 2 ^ (prec - 1) + 1) < 2 ^ (prec - 1) * 2 ^ (prec - 1) ->
+  str_to_bigint_gen AwayFromZero prec (bigint_to_str_p n p) dd = Ok (n * 10 ^ (dd - p)).
+Proof.
+  intros Hprec Hp Hdd HB.
+  destruct (bigint_to_str_p_shape n p ltac:(lia)) as (ip & fp & E & Fi & Ff & Hne & Hl & Hv).
+  assert (Hne' : ip ++ fp <> []) by (destruct ip; [congruence | discriminate]).
+  assert (Hdot : negb (p =? 0) = false -> fp = []).
+  { intro Hd. apply negb_false_iff in Hd. apply Z.eqb_eq in Hd. destruct fp; [reflexivity | cbn in Hl; lia]. }
+  assert (Hk : 0 < 10 ^ p) by (apply Z.pow_pos_nonneg; lia).
+  assert (E10 : 10 ^ dd = 10 ^ (dd - p) * 10 ^ p) by (rewrite <- Z.pow_add_r by lia; f_equal; lia).
+  rewrite E. destruct (Z.eq_dec n 0) as [-> | Hz].
+  - rewrite str_zero_gen; auto.
+  - rewrite str_pipeline_gen; try assumption; try lia.
+    rewrite Hv, Hl. cbn zeta.
+    assert (HA : Z.abs n * 10 ^ dd = Z.abs n * 10 ^ (dd - p) * 10 ^ p) by (rewrite E10; ring).
+    assert (HT : 0 < 10 ^ dd) by (apply Z.pow_pos_nonneg; lia).
+    rewrite (trunc_mul_round_exact prec _ (Z.abs n) (10 ^ p) (10 ^ dd) (Z.abs n * 10 ^ (dd - p))
+               ltac:(lia) Hk HT Hprec HA HB).
+    destruct (Z.ltb_spec n 0); cbn [sign_neg]; f_equal; lia.
+Qed.
+
+(* the round trip at any precision: what is needed is |n| * (2^prec + 1) < 2^(2 prec - 2) *)
+Lemma roundtrip_gen prec n : 1 <= prec ->
+  Z.abs n * (2 * 2 ^ (prec - 1) + 1) < 2 ^ (prec - 1) * 2 ^ (prec - 1) ->
+  str_to_bigint_gen AwayFromZero prec (bigint_to_str n) 18 = Ok n.
+Proof.
+  intros Hprec HB. unfold bigint_to_str. destruct (Z.eqb_spec n 0) as [-> | Hz].
+  - reflexivity.
+  - unfold default_decimal.
+    assert (E0 : 10 ^ (18 - 18) = 1) by reflexivity.
+    rewrite format_parse_exact_gen; rewrite ?E0; try lia. f_equal; lia.
+Qed.
+
+(* every EVM word survives at every precision from 258 bits upward (256 bits do not: Props.C18_needs_away_and_prec) *)
+Lemma roundtrip_evm_word_any_prec prec n : 258 <= prec -> - 2 ^ 256 < n < 2 ^ 256 ->
+  str_to_bigint_gen AwayFromZero prec (bigint_to_str n) 18 = Ok n.
+Proof.
+  intros Hprec Hn. apply roundtrip_gen; [lia|].
+  set (P := 2 ^ (prec - 1)).
+  assert (HP : 2 ^ 257 <= P) by (apply Z.pow_le_mono_r; lia).
+  assert (E : 2 ^ 257 = 2 * 2 ^ 256) by reflexivity.
+  assert (Hf : 2 * Z.abs n + 2 <= P) by lia.
+  assert (0 <= Z.abs n) by lia.
+  nia.
 Qed.
